@@ -145,6 +145,7 @@ type cluster struct {
 	getStatusBad       bool
 	lastStatus         map[int]*proto.GetStatusResponse
 	retryElections     int
+	captureFlush        bool // real WAL syncs, flush images and parks (power loss)
 	pendLose, pendCrash bool // flags of the BecomeLeader call about to start
 	swapFrom, swapTo    int
 
@@ -201,6 +202,7 @@ func newCluster(id string, mode string, nNodes int, rf int) (*cluster, error) {
 	}
 	c := &cluster{id: id, mode: mode, tmp: tmp, dead: make(chan struct{}), cut: map[string]bool{}, truncs: map[int][]sentTruncate{}, eids: map[[2]int64]entry{},
 		stats: map[string]int{}, lastCK: map[int]string{}, violSeen: map[string]bool{}, lastStatus: map[int]*proto.GetStatusResponse{}}
+	c.captureFlush = os.Getenv("VERIF_CLUSTER_NOSYNC") == ""
 	c.mon = newMonitor(c)
 	c.t0 = time.Now()
 	for i := 1; i <= nNodes; i++ {
